@@ -774,8 +774,23 @@ def canonical_statements(trees: list[ast.Module]) -> dict[str, int]:
                     ast.fix_missing_locations(new_if)
                     blk[i] = new_if
                     n["ifexp"] += 1
+                # --- if c: x = a / else: x = b ; return x  ->  two returns
+                st = blk[i]
+                if isinstance(st, ast.If) and len(st.body) == 1 and len(
+                        st.orelse) == 1 and i + 1 < len(blk) and isinstance(
+                        blk[i + 1], ast.Return) and isinstance(
+                        blk[i + 1].value, ast.Name):
+                    a1, a2, rv = st.body[0], st.orelse[0], blk[i + 1].value.id
+                    if all(isinstance(a, ast.Assign) and len(a.targets) == 1
+                           and isinstance(a.targets[0], ast.Name)
+                           and a.targets[0].id == rv for a in (a1, a2)):
+                        r1 = ast.copy_location(ast.Return(value=a1.value), a1)
+                        r2 = ast.copy_location(ast.Return(value=a2.value), a2)
+                        st.body, st.orelse = [r1], [r2]
+                        del blk[i + 1]
+                        n["ifexp"] += 1
                 # --- return a if c else b
-                elif isinstance(st, ast.Return) and isinstance(
+                if isinstance(st, ast.Return) and isinstance(
                         st.value, ast.IfExp):
                     v = st.value
                     r1 = ast.Return(value=v.body)
